@@ -8,6 +8,8 @@ import RimeModel.Session.GeoLoop
 import RimeModel.Session.PunctComposeGeo
 import RimeModel.Session.PunctComposeLoop
 import RimeModel.Session.Shape
+import RimeModel.Session.GeoPrevProc
+import RimeModel.Session.GeoPrevCx
 /-!
 C01 — no API call sequence crashes, hangs or corrupts memory.  Property theorems only.  CLAIMED PARTIAL:
 the theorems cover (1) the guard table of the API entry points and the get/free ownership pairs, both
@@ -134,8 +136,9 @@ where the previous one ends, `start ≤ end` for each, every candidate of a segm
 the segment's start, and every `end` is at most the length of the composition's input.
 `NoPrevMatch env` (auto_select off, or a max_code_length set) restricts the theorem to schemas on which
 Speller::AutoSelectPreviousMatch returns at once; for auto_select schemas without a code-length bound the
-statement is NOT proved (see `NoPrevMatch`: the function pushes back a copied segment without comparing
-positions) — those are covered by the differential runs only. -/
+statement is FALSE without a further restriction (`geometry_fails_prev_match_punct`, `geometry_fails_prev_match_raw`
+below: the function pushes back a copied segment without comparing positions); what holds for every schema is
+`find_earlier_match_geometry` and `speller_key_geometry_aligned`. -/
 theorem geometry_reachable (env : Env) (hrc : ComposeGeoSpec env.recompose) (hnp : NoPrevMatch env) (c0 : Ctx)
     (h0 : c0.comp.segs = []) (ops : List Op) : GeoInv (runOps env c0 ops) :=
   runOps_geo hrc hnp ops (geoInv_of_no_segs h0)
@@ -421,6 +424,69 @@ example :
                           translate := fun _ g => [Cand.mk [65] [] [] g.start g.stop true] }
     let env : Env := { recompose := compose cfg }
     (runOps env {} [.setInput [97, 44, 97]]).comp.segs.map (fun g => (g.start, g.stop)) = [(0, 1), (1, 2), (2, 3)] := by
+  decide
+
+/-! ### Speller::AutoSelectPreviousMatch (auto_select without a code-length bound) and the geometry
+
+What is proved for EVERY schema, what is proved under a local condition, and why `NoPrevMatch` cannot simply be dropped
+from `geometry_reachable` and its variants. -/
+
+/-- **Speller::FindEarlierMatch keeps the geometric invariant**, for every schema and every recomposition function
+satisfying `ComposeGeoSpec` (it only calls `set_input`, `ConfirmCurrentSelection` and `Commit`) -/
+theorem find_earlier_match_geometry (env : Env) (hrc : ComposeGeoSpec env.recompose) (fuel s e : Nat) (c : Ctx)
+    (h : GeoInv c) : GeoInv (findEarlierMatch env fuel s e c).1 :=
+  findEarlierMatch_geo hrc fuel s e c h
+
+/-- **one key through the speller, any schema**: Speller::ProcessKeyEvent keeps the geometric invariant provided the
+"reuse previous match" branch of AutoSelectPreviousMatch, if taken for this key, pushes the saved segment back where
+the segments before the popped one end (`SpellerAligned`).  The state in between (saved segment pushed, not yet
+selected) may have its last end beyond the composition's input; ConfirmCurrentSelection always recomposes there,
+because the saved segment ends before the end of the raw input (C02 invariant `cinput_le` + `Bounded`). -/
+theorem speller_key_geometry_aligned (env : Env) (hrc : ComposeGeoSpec env.recompose) (hrs : ComposeSpec env.recompose)
+    (k : Key) (c : Ctx) (hi : Inv c) (h : GeoInv c) (hal : SpellerAligned env k c) :
+    GeoInv (spellerProcess env k c).1 :=
+  spellerProcess_geo_of_aligned hrc hrs k hi h hal
+
+/-- **a repair**: had AutoSelectPreviousMatch compared `previous_segment->start` with the start of the segment it is
+about to pop (and skipped the reuse otherwise), the reuse branch would be aligned in every state -/
+theorem prev_match_same_start_aligned (env : Env) (prev : Option Seg) (c : Ctx) (h : GeoOK c.comp.segs)
+    (hs : ∀ p, prev = some p → c.comp.segs ≠ [] ∧ p.start = c.comp.currentStart) : ReuseAligned env prev c :=
+  reuseAligned_of_same_start h hs
+
+/-- **`NoPrevMatch` cannot be dropped (punctuation components)**: with `auto_select: true`, no `max_code_length`, a
+punctuation key bound to a list of alternatives and a letter without candidates, the keys `/` `a` reach the
+composition `[0,1) [0,1) [1,2)` — the punctuation segment twice (preedit `、、a`).  All other hypotheses of
+`geometry_reachable_punct` hold.  Replayed on librime: same observation. -/
+theorem geometry_fails_prev_match_punct :
+    ∃ (env : Env) (cfg : PSegCfg) (ops : List Op), env.recompose = composeP cfg ∧ TranslateGeo cfg.toSegCfg ∧
+      FilterSub cfg.filter ∧ ¬ GeoInv (runOps env {} ops) :=
+  prev_match_breaks_geometry_punct
+
+/-- **`NoPrevMatch` cannot be dropped (abc + fallback segmentors)** unless the oracle is restricted further than
+`TranslateGeo`: a translator that gives a candidate to a raw segment reaches `[0,1) [0,1) [1,2)` with
+`set_input("1")`, key `a` -/
+theorem geometry_fails_prev_match_raw :
+    ∃ (env : Env) (cfg : SegCfg) (ops : List Op), env.recompose = compose cfg ∧ TranslateGeo cfg ∧
+      ¬ GeoInv (runOps env {} ops) :=
+  prev_match_breaks_geometry_raw
+
+/-- non-vacuity: `auto_select: true`, no `max_code_length`; `ab` has two candidates (a unique one would be
+selected at once), `abc` has none.  On the key `c` the
+reuse branch IS taken (AutoSelectPreviousMatch returns true) and, the saved segment being an abc segment that the key
+extended in place, it is aligned: the result is `[0,2)` selected, `[2,3)` -/
+example :
+    let cfg : SegCfg := { alphabet := [97, 98, 99], initials := [97, 98, 99], finals := [], delimiters := [39],
+                          translate := fun inp g => if inp = [97, 98] then [Cand.mk [65] [] [] g.start g.stop true, Cand.mk [66] [] [] g.start g.stop true] else [] }
+    let env : Env := { alphabet := [97, 98, 99], initials := [97, 98, 99], delimiters := [39], autoSelect := true,
+                       maxCodeLength := 0, processors := [.speller, .selector, .navigator, .fluidEditor],
+                       recompose := compose cfg }
+    let c1 := runOps env {} [.key 97 0, .key 98 0]
+    let c2 := (Ctx.pushInput env c1 99).beginEditing
+    c2.comp.segs.map (fun g => (g.start, g.stop)) = [(0, 3)] ∧
+    (autoSelectPreviousMatch env (spellerPrev env c1) c2).2 = true ∧
+    (spellerPrev env c1).map (fun p => (p.start, endOf c2.comp.segs.dropLast)) = some (0, 0) ∧
+    (runOps env {} [.key 97 0, .key 98 0, .key 99 0]).comp.segs.map (fun g => (g.start, g.stop, g.status)) =
+      [(0, 2, .selected), (2, 3, .guess)] := by
   decide
 
 
